@@ -710,7 +710,7 @@ func main() {
 		gen  func(r *ev.Run, p *pool)
 	}
 	fams := []fam{
-		{"b", famB}, {"c", famC}, {"d", famD}, {"e", famE}, {"f", famF}, {"g", famG}, {"h", famH}, {"der", famDER}, {"fad", famFAD}, {"pre", famPre}, {"obj", famObj}, {"a", famA},
+		{"b", famB}, {"c", famC}, {"d", famD}, {"e", famE}, {"f", famF}, {"g", famG}, {"h", famH}, {"der", famDER}, {"fad", famFAD}, {"pre", famPre}, {"wgt", famWgt}, {"obj", famObj}, {"a", famA},
 	}
 	for _, f := range fams {
 		if !want(f.name) {
